@@ -1322,7 +1322,7 @@ class Interp:
                 return x in cont
             return z3_or(*[eq_values(x, c) for c in cont.keys()])
         if isinstance(cont, SDict):
-            if is_sym(x):
+            if _has_sym(x):
                 return z3_or(*[eq_values(x, c) for c in cont.items.keys()])
             return self.dict_key(x) in cont.items
         kc = kind_of(cont)
@@ -1359,6 +1359,13 @@ class Interp:
             gm = self.p.engine.models.get(('getattr', c, name))
             if gm is not None:
                 return gm.fn(self, [base], {})
+            if getattr(c, '__name__', '') == 'MatchStub':
+                from . import builtins as B
+                if name in B.MATCH_MODELS:
+                    return BoundMethod(base, Model(B.MATCH_MODELS[name], 're.Match.' + name, assumed=False), name)
+            mm = self.p.engine.models.get(('method', c, name))
+            if mm is not None:
+                return BoundMethod(base, mm, name)
             if isinstance(c, type):
                 try:
                     raw = inspect.getattr_static(c, name)
@@ -1489,7 +1496,7 @@ class Interp:
         if isinstance(idx, Opt):
             raise Unsupported('optional index')
         if isinstance(base, SDict):
-            if is_sym(idx):
+            if _has_sym(idx):
                 # finite dispatch over concrete keys
                 for k in base.items:
                     if self.p.choose(eq_values(idx, k)):
@@ -1581,6 +1588,9 @@ class Interp:
 
     def call_special(self, obj, name, args):
         c = obj.cls
+        mm = self.p.engine.models.get(('method', c, name))
+        if mm is not None:
+            return mm.fn(self, [obj] + list(args), {})
         raw = None
         if isinstance(c, type):
             try:
